@@ -19,10 +19,26 @@ import (
 func init() { drivers["C17"] = runC17 }
 
 // one worker's pass over the library on objects of its own, decoded from shared token TEXT
+// a tag list and a user key all workers share (read-only)
+var c17SharedTags []string
+var c17UserPub string
+
 func c17Work(tokens map[string]string, names []string, seedUser []byte, userTok string) []string {
 	var out []string
 	add := func(format string, a ...interface{}) { out = append(out, fmt.Sprintf(format, a...)) }
 	akp, _ := nkeys.CreateAccount()
+	// one list of tags that every worker hands to the one-call issuer (as an application's configuration would): the
+	// library reads it and leaves it alone
+	if c17SharedTags != nil {
+		apub, _ := akp.PublicKey()
+		tok, err := jwt.IssueUserJWT(akp, apub, c17UserPub, "issued", 0, c17SharedTags...)
+		if err != nil {
+			add("issue error %v", err)
+		} else if d, err := jwt.DecodeUserClaims(tok); err == nil {
+			add("issued tags=%v", d.Tags)
+		}
+		add("shared tags=%q", c17SharedTags)
+	}
 	for _, n := range names {
 		tok := tokens[n]
 		c, err := jwt.Decode(tok)
@@ -244,10 +260,18 @@ func runC17(c *Ctx) {
 	uc := jwt.NewUserClaims(upub)
 	userTok, _ := uc.Encode(kr.by["account"].kp)
 
+	c17SharedTags = append(make([]string, 0, 8), "Region-EU", "region-eu", " Tier-Gold ", "plain", "PLAIN")
+	c17UserPub = upub
 	// sequential baseline (results that do not depend on per-worker keys)
 	norm := func(l []string) string { return strings.Join(l, "\n") }
 	baseFresh := norm(c17Fresh(kr))
+	tagsLent := strings.Join(c17SharedTags, "\x00")
 	base := norm(c17Work(tokens, names, useed, userTok))
+	c.sum.ImplChecks++
+	if strings.Join(c17SharedTags, "\x00") != tagsLent {
+		c.violation("C17: a library call wrote into a list the caller only handed it to read (workers that share the list then write to shared memory)",
+			map[string]interface{}{"operation": "IssueUserJWT(..., tags...)", "list_before": strings.Split(tagsLent, "\x00"), "list_after": append([]string{}, c17SharedTags...)})
+	}
 	shared, _ := jwt.DecodeAccountClaims(rtok)
 	// a shared object as an application may hold it: built in memory, lists in no particular order
 	for i := 9; i >= 0; i-- {
